@@ -391,6 +391,17 @@ theorem race_list_shows_last_documents (h : List REv) (max : Nat) :
     ((dirAfter [] h).length ≤ max → ∀ id d, lastStored h id = some d → (id, d) ∈ dirList (dirAfter [] h) max) ∧
     ((dirList (dirAfter [] h) max).map Prod.fst).Nodup := dirList_after h max
 
+/-- **race_lookup_is_by_exact_id**: what `find_by_race_id(id)` yields depends on the `store_race` calls made with
+    exactly that id only — races stored under any other id (an id that `id` is a prefix, an abbreviation or a
+    substring of, an id that `id` matches when read as a glob pattern, a newer race, …) never influence it, and if
+    no race was stored under exactly `id` the answer is NotFound -/
+theorem race_lookup_is_by_exact_id (h : List REv) (id : Str) :
+    dirFind (dirAfter [] h) id = dirFind (dirAfter [] (h.filter (REv.concerns id))) id ∧
+    ((∀ e ∈ h, ∀ i d, e = REv.store i d → i ≠ id) → dirFind (dirAfter [] h) id = none) := by
+  refine ⟨?_, fun hno => ?_⟩
+  · rw [dirFind_after, dirFind_after]; exact lastStored_filter h id
+  · rw [dirFind_after]; exact lastStored_none_of_no_store h id hno
+
 /-! ## 8. throughput summary -/
 
 /-- **summary_agrees_with_raw**: whenever normal samples exist, `summary_stats` reports min / mean / median / max
@@ -465,6 +476,8 @@ example : delivered [.put exRecs[0], .query (.duration ['t']), .bulk [exRecs[1],
 example : raceRun [] [.store ['a'] ⟨5, 0⟩, .store ['b'] ⟨7, 1⟩, .store ['a'] ⟨3, 2⟩, .find ['a'], .find ['c'], .store ['a'] ⟨9, 0⟩, .find ['a']] =
     [.found ⟨3, 2⟩, .notFound, .found ⟨9, 0⟩] ∧
     lastStored [.store ['a'] ⟨5, 0⟩, .store ['b'] ⟨7, 1⟩, .store ['a'] ⟨3, 2⟩] ['a'] = some ⟨3, 2⟩ := by decide +kernel
+example : raceRun [] [.store ['b', '-', '1'] ⟨5, 0⟩, .store ['b', '-', '1', '2'] ⟨7, 1⟩, .store ['b', '*'] ⟨9, 2⟩, .find ['b', '-', '1'],
+      .find ['b'], .find ['b', '*']] = [.found ⟨5, 0⟩, .notFound, .found ⟨9, 2⟩] := by decide +kernel
 /-- two tasks share the operation `term`; the explicitly named one comes first, the other keeps the default name -/
 example :
     let r1 : Dict := [(sTask, .str ['w']), (sOperation, .str ['t', 'e', 'r', 'm']), (sErrorRate, .flt 1)]
